@@ -395,6 +395,28 @@ def run(ck: Check):
                                     {"op": batches[j][k], "ops": batches[j][: k + 1][-8:], "model": m, "impl": o})
                     break
             pos += len(batches[j])
+    # ---- "of a known type": which class a type number means is api.proto's `option (id)`, read from the protocol TEXT - a frame
+    # numbered t reaches the subscribers of the class api.proto gives that number, and nobody else
+    import live
+    by_text = 0
+    for t, cname in sorted(decl.items()):
+        cls = getattr(pb, cname)
+        client, conn, tr, loop = live.make_client()
+        got, other = [], []
+        conn.add_message_callback(lambda m, got=got: got.append(type(m).__name__), (cls,))
+        nb = decl.get(t + 1) or decl.get(t - 1)
+        if nb:
+            conn.add_message_callback(lambda m, other=other: other.append(type(m).__name__), (getattr(pb, nb),))
+        try:
+            conn.process_packet(t, b"")
+        except Exception as e:  # noqa: BLE001
+            got.append("raised:" + type(e).__name__)
+        by_text += 1
+        if got != [cname] or other:
+            ck.violation(f"c12:id-meaning:{t}", f"a well-formed frame of type {t} (api.proto: {cname}) was delivered to the subscribers of {cname} "
+                         f"{got.count(cname)} time(s) {got}, to the subscriber of the neighbouring type {nb}: {other}",
+                         {"type": t, "class_in_api_proto": cname, "delivered_as": got, "neighbour": nb, "neighbour_got": other})
+    dist["ids_delivered_by_protocol_text"] = by_text
     # ---- the device's own requests are answered from the moment the session can receive: during the hello / login
     # exchange as well as afterwards (real connect path over SimNet)
     during = connect_phase_requests(ck)
